@@ -90,6 +90,19 @@ check("C17", "proof",
       "builtin set/str/fnmatch/ipaddress/packaging semantics are uninterpreted or structural models (oracle relations); "
       "CIDR containment on a 32-address universe, versions, marked_key and CEL-level calls are a bounded stand-in.",
       "contract-based deductive verification relative to library contracts + bounded sweeps for the libraries", "DESIGN.md 4/C17")
+check("C09", "proof",
+      "Index: Evaluator.member_index on a list of UNKNOWN length and any int64 index returns the element at that position "
+      "iff 0 <= i < size, an error otherwise (negative included); non-int index is an error. operator_in over a list of "
+      "unknown length with a loop invariant and element comparisons that may be true, false or raise: true iff some "
+      "comparison is true, else error iff some raised, else false (the `exists` reading). size/startsWith/endsWith/"
+      "contains/concatenation over symbolic strings (size in code points; (s+t).startsWith(s) composed through the two real "
+      "functions). Map literals: duplicate keys an error; lookup present/missing; has(). map/filter/exists_one for the "
+      "interpreter branches and for macro_map/macro_filter/macro_exists_one over receivers of unknown length: same size, "
+      "element i is the body with the variable bound to l[i]; kept exactly when the predicate is true, the element itself "
+      "appended; exactly-one by a counting invariant; body errors are returned, never raised past the rule.",
+      "RE2 semantics trusted (valid/invalid outcome abstracted); builtin map/filter/list()/sum semantics; element "
+      "abstraction; a reference-evaluator bounded stand-in under both runners.",
+      "contract-based deductive verification: symbolic sequences, fold and loop invariants + z3", "DESIGN.md 4/C09")
 _pending = "contracts for this property are not built yet in this revision (work in progress, see DESIGN.md section 8 build order)"
-for _p in ["C03","C04","C05","C06","C07","C09","C10","C11","C12","C14","C16"]:
+for _p in ["C03","C04","C05","C06","C07","C10","C11","C12","C14","C16"]:
     NA[_p] = _pending
